@@ -1507,7 +1507,10 @@ class Module(ABC):
         new_recs["state"] = state
         self.base.recordings = pd.concat([self.base.recordings, new_recs])
         has_duplicates = self.base.recordings.duplicated()
-        self.base.recordings = self.base.recordings.loc[~has_duplicates]
+        # Keep the row labels unique (`delete_recordings()` of a `View` relies on it).
+        self.base.recordings = self.base.recordings.loc[~has_duplicates].reset_index(
+            drop=True
+        )
         if verbose:
             print(
                 f"Added {len(in_view)-sum(has_duplicates)} recordings. See `.recordings` for details."
